@@ -13,7 +13,9 @@ for d in /tmp/seed/out/*/; do
   for k in 1 2; do
     [ -f $d/patch$k.diff ] || continue
     [ -n "$only" ] && [ "$only" != "$id-$k" ] && continue
-    log=$OUT/$id-$k.log; res=$OUT/$id-$k.confirm; : > $log; : > $res
+    log=$OUT/$id-$k.log; res=$OUT/$id-$k.confirm
+    if [ -f $res ] && grep -q "existing-tests-with-patch-exit" $res; then continue; fi
+    : > $log; : > $res
     cd $WT && git checkout -q -- . && git clean -fdq
     if ! git apply --check $d/patch$k.diff 2>>$log; then echo "patch-applies=NO" >> $res; continue; fi
     echo "patch-applies=yes" >> $res
